@@ -82,6 +82,8 @@ class C03(Prop):
                     Layer("boolean P2xP2 (every 5th pair)",
                           lambda: (c for k, c in enumerate(self.bin_cases("bool", "P2", "P2")) if k % 5 == 0),
                           policies=["natural@int", "1@str", "2@int"]),
+                    Layer("boolean P2xP1/names whose pair spellings coincide", lambda: self.bin_cases("bool", "P2", "P1"),
+                          policies=["natural@pair", "natural@mixed"]),
                     Layer("rational P1xP1", lambda: self.bin_cases("rat", "P1", "P1"), policies=two),
                     Layer("rational P1xP1{b,c}", lambda: self.bin_cases("rat", "P1", "P1", ("b", "c")), policies=two)]
         few = ["natural@int", "natural@str", "1@int", "2@str", "s%d@int" % seed]
@@ -91,6 +93,8 @@ class C03(Prop):
                 Layer("unary FA(4,1,<=3)", lambda: self.un_cases("U41"), rep=rep_un, policies=few[:3]),
                 Layer("boolean P2xP2", lambda: self.bin_cases("bool", "P2", "P2"), policies=few[:3]),
                 Layer("boolean P2xP2{b,c}", lambda: self.bin_cases("bool", "P2", "P2", ("b", "c")), policies=few[:2]),
+                Layer("boolean P2xP2/names whose pair spellings coincide", lambda: self.bin_cases("bool", "P2", "P2"),
+                      policies=["natural@pair", "natural@mixed", "1@pair"]),
                 Layer("rational P2xP1", lambda: self.bin_cases("rat", "P2", "P1"), policies=few[:3]),
                 Layer("rational P1xP2{b,c}", lambda: self.bin_cases("rat", "P1", "P2", ("b", "c")), policies=few[:3])]
 
@@ -183,6 +187,9 @@ class C03(Prop):
     def check(self, case, ref, ctx):
         scheme = ctx.variant or "int"
         ca, cb, symsb, same = self.resolve(case)
+        scheme_b = scheme
+        if scheme == "pair":
+            scheme, scheme_b = "pairA", ("pairA" if same else "pairB")
         ra = O.ref_from_case(ca, scheme)
         a = ctx.call(O.build_fa, ca, "enfa", scheme)
         if not ctx.returns(a, "C03.build"):
@@ -208,11 +215,11 @@ class C03(Prop):
             ctx.expect(snapshot(a) == snap_a, "C03.unary.operands_unchanged")
             return
         group = case[1]
-        rb = O.ref_from_case(cb, scheme, symsb)
+        rb = O.ref_from_case(cb, scheme_b, symsb)
         if same:
             b = a
         else:
-            b = ctx.call(O.build_fa, cb, "enfa", scheme, symsb)
+            b = ctx.call(O.build_fa, cb, "enfa", scheme_b, symsb)
             if not ctx.returns(b, "C03.build"):
                 return
             b = b.value
